@@ -548,8 +548,14 @@ async def e2e_get(ctx, tmp):
         async def scandir(self, path):
             if path.rstrip(b'/').endswith(b'dir'):
                 for n in state['names']:
+                    isdir = state.get('dirs') and n.endswith(b'/')
                     yield asyncssh.SFTPName(n, attrs=asyncssh.SFTPAttrs(
-                        type=asyncssh.FILEXFER_TYPE_REGULAR, permissions=0o100644, size=4))
+                        type=asyncssh.FILEXFER_TYPE_DIRECTORY if isdir else asyncssh.FILEXFER_TYPE_REGULAR,
+                        permissions=0o40755 if isdir else 0o100644, size=0 if isdir else 4))
+            elif state.get('dirs'):
+                # whatever directory the client walks into next holds one file
+                yield asyncssh.SFTPName(b'evilT', attrs=asyncssh.SFTPAttrs(
+                    type=asyncssh.FILEXFER_TYPE_REGULAR, permissions=0o100644, size=4))
 
         def open(self, path, pflags, attrs):
             import io
@@ -594,6 +600,35 @@ async def e2e_get(ctx, tmp):
             used = opened[0] if opened else None
             cases.append('(%s, %s, %s)' % (zl(dst.encode()), zl(name_r), copt(used, zl)))
             shutil.rmtree(work, ignore_errors=True)
+        # glob expansion (mget) over listings whose DIRECTORY entries carry a trailing slash
+        state['dirs'] = True
+        for k2, name in enumerate([b'../', b'..//', b'x/', b'./', b'../x/']):
+            for api in ('mget', 'get'):
+                work = os.path.join(dl, 'g%d%s' % (k2, api))
+                dst = os.path.join(work, 'sub', 'dst')
+                os.makedirs(dst)
+                state['names'] = [name, b'plain']
+                before = snapshot(tmp)
+                err = None
+                try:
+                    if api == 'mget':
+                        await sftp.mget(b'/remotedir/*', dst, recurse=True)
+                    else:
+                        await sftp.get(b'/remotedir', dst, recurse=True)
+                except (asyncssh.SFTPError, OSError, ValueError) as e:
+                    err = type(e).__name__
+                ctx.note_case(('get_dirslash', api, name), nontrivial=True)
+                ctx.count('e2e_get.dirslash.' + ('raised' if err else 'ok'))
+                after = snapshot(tmp)
+                changed = sorted(p for p in set(before) | set(after) if before.get(p) != after.get(p))
+                outside = [p for p in changed if not (p == dst or p.startswith(dst + '/'))]
+                if outside:
+                    ctx.failing_input(
+                        f'recursive SFTP {api} to {dst!r} from a server listing the directory entry {name!r} changed '
+                        f'{outside[:3]!r}', {'kind': 'e2e_get', 'name': name.decode('latin-1'), 'api': api,
+                                             'changed_outside': outside[:3]})
+                shutil.rmtree(work, ignore_errors=True)
+        state['dirs'] = False
         ctx.sample({'e2e_get': {'entry_name': repr(names[1])}})
     finally:
         conn.close()
